@@ -553,7 +553,7 @@ def record(sc):
               "a": step[1] if step[0] == "append" else 0,
               "b": step[2] if step[0] == "append" else (step[1] if step[0] == "new" else 0),
               "nm": nm,
-              "idx": step[2] if step[0] == "calculate_index" else 0,
+              "idx": step[2] if step[0] == "calculate_index" else (step[1] + 1 if step[0] == "add" else 0),
               "exc": exc, "bt": [], "ob": ses.observed(), "rd": reads,
               "ab": ses.args[0], "aa": ses.args[1], "wk": [w for w in wk if w]}
         snaps.append((ev, {n: proj_candles(cs, base) for n, cs in ses.managers()}))
